@@ -183,12 +183,34 @@ func (fr *Frame) intercept(st *State, fn *ssa.Function, pkg string, args []Val, 
 		// library constructors return a new, non-nil object
 		ex.trusted["library constructors (bufio.NewWriter/NewReader/NewScanner, time.NewTicker/NewTimer) return a new non-nil object"] = true
 		return Val{T: fr.newRef(st, "lib."+name)}, true
+	case "os.File.Close":
+		// closing a file twice is an error, every time; closing an open file may fail for reasons of its own
+		if len(args) == 1 && args[0].T != nil {
+			ex.trusted["os.File.Close: returns an error whenever the file was already closed (and possibly otherwise); the file is closed afterwards"] = true
+			fc := ex.get(st, "FileClosed", ArraySort(SRef, SBool))
+			was := Select(fc, args[0].T)
+			e := ex.ctx.Fresh("closeerr", SIfc)
+			ex.assume(st, Implies(was, Neq(e, V("iface_nil", SIfc))))
+			if ex.ghost == 0 {
+				n := ex.get(st, "LibFailN", SInt)
+				ex.set(st, "LibFailN", Add(n, Ite(Or(was, Eq(e, V("iface_nil", SIfc))), IntLit(0), IntLit(1))))
+				ex.set(st, "FileClosed", Store(fc, args[0].T, TTrue))
+			}
+			return Val{T: e}, true
+		}
 	case "os.OpenFile", "os.Open", "os.Create":
 		// (file, err): a nil error comes with a non-nil file
 		ex.trusted["os.OpenFile/Open/Create: either an error or a non-nil *os.File"] = true
 		f := ex.ctx.Fresh("osfile", SRef)
 		e := ex.ctx.Fresh("oserr", SIfc)
 		ex.assume(st, Implies(Eq(e, V("iface_nil", SIfc)), Neq(f, TNull)))
+		if ex.ghost == 0 {
+			n := ex.get(st, "LibFailN", SInt)
+			ex.set(st, "LibFailN", Add(n, Ite(Eq(e, V("iface_nil", SIfc)), IntLit(0), IntLit(1))))
+			// a file just opened is open
+			fc := ex.get(st, "FileClosed", ArraySort(SRef, SBool))
+			ex.set(st, "FileClosed", Store(fc, f, TFalse))
+		}
 		return Val{Tup: []Val{{T: f}, {T: e}}}, true
 	case "sync/atomic.Value.Load":
 		// atomic.Value: all values ever stored have one concrete type (Store panics otherwise), so what another
